@@ -1,9 +1,8 @@
 (* C01 — the DS -> DNSKEY link.
-   chain_sound is FALSE of the code as it stands (F10): verifyDNSSEC accepts a DNSKEY RRset
-   as soon as (a) some key of the set matches a DS and (b) the set is signed by ANY key of the
-   set — not necessarily the matched one.  [chain_sound_refuted] computes the witness; the
-   repaired validator [verify_dnssec_fixed] (props/C01/fix.patch) is proved sound, and the
-   induction over the referral depth is carried out for it. *)
+   chain_sound: a DNSKEY answer accepted by verifyDNSSEC against an authentic DS set contains only the
+   zone's own keys.  True of the code since d62d15b (the DNSKEY RRset must verify under a DS-matched
+   key).  The validator as it was before that commit is kept below as [verify_dnssec_before_d62d15b]
+   with the witness on which it failed (an Example, for the record and for the revert regression). *)
 From Sdns Require Import Common.Base Gen.C01 C01.Model C01.Proofs_sig.
 Open Scope N_scope.
 
@@ -27,6 +26,35 @@ Section Witness.
   Definition zone_signed0 (_ : signed) : Prop := False.
 End Witness.
 
+(* verifyDNSSEC as it was before d62d15b: any key of the RRset may sign the RRset *)
+Definition verify_dnssec_before_d62d15b (E : env) (signer : name) (resp : msg) (parentDS : list rr) : bool * option err :=
+  let own := (m_qtype resp =? T_DNSKEY) && name_eqb (m_qname resp) signer in
+  if own && match signer with [] => true | _ => false end then verify_root_keys E resp else
+  match (if own then LMsg resp else e_key E signer) with
+  | LErr i => (false, Some (ELookup i))
+  | LMsg km =>
+      let keys := keys_of_msg signer km in
+      match keys with
+      | [] => (false, Some ENoDNSKEY)
+      | _ =>
+          match parentDS with
+          | [] => (false, Some EDSSetEmpty)
+          | _ =>
+              match verify_ds keys parentDS with
+              | (true, Some _) => (false, None)
+              | (false, Some e) => (false, Some e)
+              | (_, None) =>
+                  if m_qtype resp =? T_RRSIG then (false, None) else
+                  match verify_rrsig (e_nrank E) (e_now E) signer keys (m_ans resp) (m_ns resp) with
+                  | (_, Some e) => (false, Some e)
+                  | (false, None) => (false, None)
+                  | (true, None) => (true, None)
+                  end
+              end
+          end
+      end
+  end.
+
 (* the statement: a DNSKEY response accepted against an authentic DS set yields only the zone's own keys *)
 Definition chain_sound_statement (vd : env -> name -> msg -> list rr -> bool * option err) : Prop :=
   forall (honest : N -> Prop) (zone_signed : signed -> Prop) E z resp ds,
@@ -38,7 +66,7 @@ Definition chain_sound_statement (vd : env -> name -> msg -> list rr -> bool * o
     vd E z resp ds = (true, None) ->
     forall k, In k (keys_of_msg z resp) -> honest (k_mat k).
 
-Lemma chain_sound_refuted_lemma : ~ chain_sound_statement verify_dnssec.
+Lemma old_variant_refuted : ~ chain_sound_statement verify_dnssec_before_d62d15b.
 Proof.
   intros H.
   assert (Hk : honest0 (k_mat kA)).
@@ -57,15 +85,7 @@ Proof.
   unfold honest0 in Hk. cbn in Hk. discriminate.
 Qed.
 
-(* --------------------------------------------------------------- the repair *)
-Definition ds_binds_b (d : rr) (k : key) : bool :=
-  match r_rd d with
-  | RdDS tag alg dt dg _ =>
-      supported_digest dt && supported_alg alg && (k_tag k =? tag) && (k_alg k =? alg) && (k_class k =? r_class d) &&
-      name_eqb (k_owner k) (r_owner d) && (k_proto k =? ds_candidate_protocol) && zone_bit (k_flags k) &&
-      digest_eqb dg (DigOf dt (k_owner k) (k_flags k) (k_proto k) (k_alg k) (k_mat k))
-  | _ => false
-  end.
+(* --------------------------------------------------------------- the code since d62d15b *)
 Lemma ds_binds_b_spec d k : ds_binds_b d k = true -> ds_binds d k.
 Proof.
   unfold ds_binds_b, ds_binds. destruct (r_rd d); try discriminate. intros H.
@@ -77,76 +97,30 @@ Proof.
          end.
   exists tag, alg, dt, dg, rank. repeat split; auto.
 Qed.
-(* the keys a DS of the set vouches for *)
-Definition ds_matched (ds : list rr) (keys : list key) : list key :=
-  filter (fun k => existsb (fun d => ds_binds_b d k) ds) keys.
-(* the DNSKEY RRset of the signer and the signatures over it *)
-Definition dnskey_part (signer : name) (km : msg) : list rr :=
-  filter (fun r => name_eqb (r_owner r) signer &&
-                   ((r_type r =? T_DNSKEY) || match sig_of r with Some s => (r_type r =? T_RRSIG) && (s_cov s =? T_DNSKEY) | None => false end))
-         (m_ans km).
-
-(* verifyDNSSEC with the repair (props/C01/fix.patch): when the response under validation IS the
-   signer's DNSKEY answer, its DNSKEY RRset must verify under a key that a DS of the parent's set
-   matches, before any other key of the set is believed.  (Keys obtained through the sub-query
-   path went through this check when that DNSKEY answer was itself resolved.) *)
-Definition verify_dnssec_fixed (E : env) (signer : name) (resp : msg) (parentDS : list rr) : bool * option err :=
-  let own := (m_qtype resp =? T_DNSKEY) && name_eqb (m_qname resp) signer in
-  if own && match signer with [] => true | _ => false end then verify_root_keys E resp else
-  match (if own then LMsg resp else e_key E signer) with
-  | LErr i => (false, Some (ELookup i))
-  | LMsg km =>
-      let keys := keys_of_msg signer km in
-      match keys with
-      | [] => (false, Some ENoDNSKEY)
-      | _ =>
-          match parentDS with
-          | [] => (false, Some EDSSetEmpty)
-          | _ =>
-              match verify_ds keys parentDS with
-              | (true, Some _) => (false, None)
-              | (false, Some e) => (false, Some e)
-              | (_, None) =>
-                  match (if own then verify_rrsig (e_nrank E) (e_now E) signer (ds_matched parentDS keys) (dnskey_part signer km) []
-                         else (true, None)) with
-                  | (_, Some e) => (false, Some e)
-                  | (false, None) => (false, None)
-                  | (true, None) =>
-                      if m_qtype resp =? T_RRSIG then (false, None) else
-                      match verify_rrsig (e_nrank E) (e_now E) signer keys (m_ans resp) (m_ns resp) with
-                      | (_, Some e) => (false, Some e)
-                      | (false, None) => (false, None)
-                      | (true, None) => (true, None)
-                      end
-                  end
-              end
-          end
-      end
-  end.
-
 (* the witness of the defect is refused by the repaired validator *)
-Lemma fixed_rejects_witness : verify_dnssec_fixed E0 zn forged_keys ds_parent = (false, Some EMissingDNSKEY).
+Lemma current_rejects_witness : verify_dnssec E0 zn forged_keys ds_parent = (false, Some EMissingDNSKEY).
 Proof. vm_compute. reflexivity. Qed.
 
 Definition own_query (signer : name) (resp : msg) : bool := (m_qtype resp =? T_DNSKEY) && name_eqb (m_qname resp) signer.
 Definition root_own (signer : name) (resp : msg) : bool :=
   own_query signer resp && match signer with [] => true | _ => false end.
-Lemma verify_dnssec_fixed_inv E signer resp parentDS :
+Lemma verify_dnssec_inv E signer resp parentDS :
   root_own signer resp = false ->
-  verify_dnssec_fixed E signer resp parentDS = (true, None) ->
+  verify_dnssec E signer resp parentDS = (true, None) ->
   exists m, (if own_query signer resp then LMsg resp else e_key E signer) = LMsg m /\
     (own_query signer resp = true ->
        verify_rrsig (e_nrank E) (e_now E) signer (ds_matched parentDS (keys_of_msg signer m)) (dnskey_part signer m) [] = (true, None)) /\
     verify_rrsig (e_nrank E) (e_now E) signer (keys_of_msg signer m) (m_ans resp) (m_ns resp) = (true, None).
 Proof.
   unfold root_own, own_query. intros Hro.
-  unfold verify_dnssec_fixed. rewrite Hro.
+  unfold verify_dnssec. rewrite Hro.
   destruct ((m_qtype resp =? T_DNSKEY) && name_eqb (m_qname resp) signer) eqn:Eown.
   - intros H. exists resp. split; [reflexivity|].
     remember (keys_of_msg signer resp) as keys eqn:Hkeys.
     destruct keys as [|k0 ks]; [discriminate|].
     destruct parentDS as [|d0 ds]; [discriminate|].
     repeat match type of H with
+           | context[match ds_matched ?a ?b with _ => _ end] => destruct (ds_matched a b) eqn:?
            | context[let (_, _) := ?x in _] => destruct x as [? [?|]] eqn:?
            | context[if ?b then _ else _] => destruct b eqn:?
            end; try discriminate.
@@ -228,11 +202,11 @@ Section Fixed.
     root_own signer resp = false -> own_query signer resp = true ->
     (forall d k, In d parentDS -> ds_binds d k -> honest (k_mat k)) ->
     unforgeable honest zone_signed (m_ans resp) -> publishes_own_keys (m_ans resp) ->
-    verify_dnssec_fixed E signer resp parentDS = (true, None) ->
+    verify_dnssec E signer resp parentDS = (true, None) ->
     forall k, In k (keys_of_msg signer resp) -> honest (k_mat k).
   Proof.
     intros Hnr Hown Hds Hu Hp Hv.
-    apply verify_dnssec_fixed_inv in Hv as (m & Em & Hv1 & _); [|exact Hnr].
+    apply verify_dnssec_inv in Hv as (m & Em & Hv1 & _); [|exact Hnr].
     rewrite Hown in Em. injection Em as <-.
     eapply dnskey_rrset_authentic; eauto.
   Qed.
@@ -240,14 +214,14 @@ Section Fixed.
   (* the repaired verifyDNSSEC: accept ⇒ every RRset of the validated response was signed by the zone,
      provided the keys it used are the zone's own — which the lemma above gives for the DNSKEY answer,
      and which is the invariant of the store for keys fetched through a sub-query *)
-  Theorem verify_dnssec_fixed_sound_lemma E signer resp parentDS :
+  Theorem verify_dnssec_sound_lemma E signer resp parentDS :
     root_own signer resp = false ->
     (forall d k, In d parentDS -> ds_binds d k -> honest (k_mat k)) ->
     (if own_query signer resp
      then unforgeable honest zone_signed (m_ans resp) /\ publishes_own_keys (m_ans resp)
      else forall m, e_key E signer = LMsg m -> forall k, In k (keys_of_msg signer m) -> honest (k_mat k)) ->
     unforgeable honest zone_signed (m_ans resp ++ m_ns resp) ->
-    verify_dnssec_fixed E signer resp parentDS = (true, None) ->
+    verify_dnssec E signer resp parentDS = (true, None) ->
     let dn := dnames_of signer (m_ans resp) (m_ns resp) in
     (forall r, In r (m_ans resp) -> is_sig r = false -> is_synth dn r = false ->
        in_zone (r_owner r) signer = true /\
@@ -257,7 +231,7 @@ Section Fixed.
   Proof.
     intros Hnr Hds Hsrc Hu Hv dn.
     pose proof Hv as Hv0.
-    apply verify_dnssec_fixed_inv in Hv as (m & Em & _ & Hv2); [|exact Hnr].
+    apply verify_dnssec_inv in Hv as (m & Em & _ & Hv2); [|exact Hnr].
     destruct (own_query signer resp) eqn:Eown.
     - injection Em as <-. destruct Hsrc as [Hu1 Hp].
       assert (Hk : forall k, In k (keys_of_msg signer resp) -> honest (k_mat k))
@@ -266,3 +240,49 @@ Section Fixed.
     - exact (verify_rrsig_sound_lemma honest zone_signed _ _ _ _ _ _ Hv2 (Hsrc m Em) Hu).
   Qed.
 End Fixed.
+
+(* chain_sound, as stated, holds of the code *)
+Lemma chain_sound_lemma : chain_sound_statement verify_dnssec.
+Proof.
+  intros honest zone_signed E z resp ds Hz Hq Hn Hds Hu Hp Hv k Hk.
+  assert (Hown : own_query z resp = true).
+  { unfold own_query. rewrite Hq, Hn, N.eqb_refl, name_eqb_refl. reflexivity. }
+  assert (Hro : root_own z resp = false).
+  { unfold root_own. rewrite Hown. destruct z; [contradiction|reflexivity]. }
+  assert (Hu1 : unforgeable honest zone_signed (m_ans resp)).
+  { intros r s m sd Hin. apply Hu. apply in_app_iff. left. exact Hin. }
+  assert (Hp1 : publishes_own_keys honest zone_signed (m_ans resp)).
+  { intros c a lb o e i t sg ow cl rds Hzs Hc r k0 Hr. eapply Hp; eauto. }
+  exact (keys_fixed_honest honest zone_signed E z resp ds Hro Hown Hds Hu1 Hp1 Hv k Hk).
+Qed.
+
+(* the root's own DNSKEY answer: only configured anchors (flags 257) may sign it *)
+Lemma verify_root_keys_sound (honest : N -> Prop) (zone_signed : signed -> Prop) E resp :
+  (forall k, In k (e_anchors E) -> honest (k_mat k)) ->
+  unforgeable honest zone_signed (m_ans resp ++ m_ns resp) ->
+  verify_root_keys E resp = (true, None) ->
+  let dn := dnames_of [] (m_ans resp) (m_ns resp) in
+  (forall r, In r (m_ans resp) -> is_sig r = false -> is_synth dn r = false ->
+     in_zone (r_owner r) [] = true /\
+     exists set, vouched_set zone_signed (e_now E) [] (m_ans resp) (m_ns resp) dn r set) /\
+  (forall r, In r (m_ns resp) -> passes [] dn true r = true ->
+     exists set, vouched_set zone_signed (e_now E) [] (m_ans resp) (m_ns resp) dn r set).
+Proof.
+  intros Ha Hu Hv. unfold verify_root_keys in Hv.
+  destruct (filter (fun k => k_flags k =? root_key_flags) (e_anchors E)) as [|k0 ks] eqn:Ef; [discriminate|].
+  rewrite <- Ef in Hv.
+  destruct (ds_from_root_keys E); [destruct (filter _ _); discriminate|].
+  assert (Hv' : verify_rrsig (e_nrank E) (e_now E) [] (filter (fun k => k_flags k =? root_key_flags) (e_anchors E)) (m_ans resp) (m_ns resp) = (true, None)).
+  { rewrite Ef in Hv. rewrite Ef.
+    destruct (verify_ds (k0 :: ks) a) as [u [e|]]; [discriminate|].
+    destruct (verify_rrsig (e_nrank E) (e_now E) [] (k0 :: ks) (m_ans resp) (m_ns resp)) as [b [e|]] eqn:Ev; [discriminate|].
+    destruct b; [reflexivity|].
+    exfalso. unfold verify_rrsig in Ev.
+    destruct (collect [] _ false (m_ans resp) [] false) as [g1 b1].
+    destruct (collect [] _ true (m_ns resp) g1 b1) as [g b2].
+    destruct b2; [discriminate|]. destruct g; [discriminate|].
+    destruct (filter is_sig (m_ans resp) ++ filter is_sig (m_ns resp)); [discriminate|].
+    destruct (check_groups _ _ _ _); discriminate. }
+  apply (verify_rrsig_sound_lemma honest zone_signed _ _ _ _ _ _ Hv'); [|exact Hu].
+  intros k Hk. apply filter_In in Hk as [Hk _]. auto.
+Qed.
